@@ -1986,6 +1986,10 @@ def dask_groupby_agg(
             # find number of groups in each chunk, this is needed for output chunks
             # along the reduced axis
             # TODO: this logic is very specialized for the resampling case
+            if is_duck_dask_array(by_input):
+                raise NotImplementedError(
+                    "method='blockwise' with reindex=False requires the group labels to be a numpy array."
+                )
             slices = slices_from_chunks(tuple(array.chunks[ax] for ax in axis))
             groups_in_block = tuple(_unique(by_input[slc]) for slc in slices)
             groups = (np.concatenate(groups_in_block),)
@@ -2882,7 +2886,8 @@ def groupby_reduce(
         partial_agg = partial(dask_groupby_agg, **kwargs)
 
         # if preferred method is already blockwise, no need to rechunk
-        if preferred_method != "blockwise" and method == "blockwise" and by_.ndim == 1:
+        # (labels held in a dask array cannot be inspected here: the caller must have aligned the chunks)
+        if preferred_method != "blockwise" and method == "blockwise" and by_.ndim == 1 and not any_by_dask:
             array = rechunk_for_blockwise(array, axis=-1, labels=by_)
 
         result, groups = partial_agg(
